@@ -542,6 +542,9 @@ func BuildOverlay(repo, engine, scratch string, rules []PkgRules) (string, map[s
 		}
 		files, _ := filepath.Glob(filepath.Join(shimDir, e.Name(), "*.go"))
 		for _, fp := range files {
+			if strings.HasSuffix(fp, "_test.go") {
+				continue
+			}
 			replace[filepath.Join(repo, "verifshim", e.Name(), filepath.Base(fp))] = fp
 		}
 	}
